@@ -1,0 +1,217 @@
+//go:build verif && !js
+
+package websocket
+
+import (
+	"context"
+	"errors"
+	"io"
+	"net"
+	"reflect"
+	"runtime"
+	"sync/atomic"
+
+	"nhooyr.io/websocket/internal/util"
+)
+
+// VerifEvent is one observation emitted at a linearization point of the library.
+// It carries the action name, the connection and goroutine it happened on and a few
+// cheap scalars; never payload bytes (S is used for ping payloads and pool kinds only).
+type VerifEvent struct {
+	Conn int64  `json:"c"`
+	G    int64  `json:"g"`
+	Ev   string `json:"ev"`
+	L    string `json:"l,omitempty"`
+	S    string `json:"s,omitempty"`
+	A    int64  `json:"a"`
+	B    int64  `json:"b"`
+	D    int64  `json:"d"`
+	E    int64  `json:"e"`
+}
+
+// VerifSink receives every event synchronously in the goroutine that produced it.
+// It must be set before any connection exists and never changed while one is live.
+// A sink may block (it is then a scheduler gate); it must not call into the library.
+var VerifSink func(VerifEvent)
+
+var verifConnCounter int64
+
+type verifState struct {
+	id int64
+}
+
+type verifCtxKey struct{}
+
+// VerifCtx tags a context with an identity that hooks report (0 is reserved for contexts
+// that can never be done, -1 for cancellable contexts nobody tagged).
+func VerifCtx(ctx context.Context, id int64) context.Context {
+	return context.WithValue(ctx, verifCtxKey{}, id)
+}
+
+// VerifConnID returns the identity hooks use for c.
+func VerifConnID(c *Conn) int64 { return c.v.id }
+
+// VerifEmit lets packages layered on Conn (wsjson) and harnesses add events to the same order.
+func VerifEmit(c *Conn, ev, s string, a, b int64) {
+	if VerifSink == nil {
+		return
+	}
+	var id int64
+	if c != nil {
+		id = c.v.id
+	}
+	VerifSink(VerifEvent{Conn: id, G: verifGID(), Ev: ev, S: s, A: a, B: b})
+}
+
+// VerifObjID is the identity of a pooled object (its address; never dereferenced).
+func VerifObjID(o interface{}) int64 { return vObjID(o) }
+
+func vCtxID(ctx context.Context) int64 {
+	if ctx == nil || ctx.Done() == nil {
+		return 0
+	}
+	if id, ok := ctx.Value(verifCtxKey{}).(int64); ok {
+		return id
+	}
+	return -1
+}
+
+func vB(b bool) int64 {
+	if b {
+		return 1
+	}
+	return 0
+}
+
+func verifGID() int64 {
+	var buf [40]byte
+	n := runtime.Stack(buf[:], false)
+	// "goroutine 123 [running]:"
+	var id int64
+	for i := len("goroutine "); i < n; i++ {
+		ch := buf[i]
+		if ch < '0' || ch > '9' {
+			break
+		}
+		id = id*10 + int64(ch-'0')
+	}
+	return id
+}
+
+// VerifErrClass maps an error to the class hooks report.
+func VerifErrClass(err error) int64 {
+	var ce CloseError
+	switch {
+	case err == nil:
+		return 0
+	case errors.As(err, &ce):
+		return 3
+	case errors.Is(err, net.ErrClosed):
+		return 1
+	case errors.Is(err, context.DeadlineExceeded), errors.Is(err, context.Canceled):
+		return 2
+	case errors.Is(err, io.EOF), errors.Is(err, io.ErrUnexpectedEOF):
+		return 4
+	}
+	return 9
+}
+
+func vObjID(o interface{}) int64 {
+	if o == nil {
+		return 0
+	}
+	v := reflect.ValueOf(o)
+	switch v.Kind() {
+	case reflect.Ptr, reflect.Func, reflect.Chan, reflect.Map, reflect.UnsafePointer, reflect.Slice:
+		return int64(v.Pointer())
+	}
+	return 0
+}
+
+func (c *Conn) vInit() {
+	c.v.id = atomic.AddInt64(&verifConnCounter, 1)
+	flateMode := int64(0)
+	if c.copts != nil {
+		flateMode = 1 + vB(c.copts.clientNoContextTakeover) + 2*vB(c.copts.serverNoContextTakeover)
+	}
+	c.vEv("ConnNew", vB(c.client), flateMode, int64(c.flateThreshold), 0)
+	if c.client {
+		c.vObj("PoolGet", "br", c.br)
+		c.vObj("PoolGet", "bw", c.bw)
+	}
+}
+
+func (c *Conn) vEv(ev string, a, b, d, e int64) {
+	if VerifSink == nil {
+		return
+	}
+	VerifSink(VerifEvent{Conn: c.v.id, G: verifGID(), Ev: ev, A: a, B: b, D: d, E: e})
+}
+
+func (c *Conn) vEvS(ev string, s string, a int64) {
+	if VerifSink == nil {
+		return
+	}
+	VerifSink(VerifEvent{Conn: c.v.id, G: verifGID(), Ev: ev, S: s, A: a})
+}
+
+func (c *Conn) vErr(ev string, err error, a int64) {
+	if VerifSink == nil {
+		return
+	}
+	VerifSink(VerifEvent{Conn: c.v.id, G: verifGID(), Ev: ev, A: a, B: VerifErrClass(err)})
+}
+
+func (c *Conn) vObj(ev, kind string, o interface{}) {
+	if VerifSink == nil {
+		return
+	}
+	VerifSink(VerifEvent{Conn: c.v.id, G: verifGID(), Ev: ev, S: kind, A: vObjID(o)})
+}
+
+// vUse brackets a call into whatever the limit reader currently reads from. Only pooled
+// objects are reported; the connection's own frame reader (a func value) is not pooled.
+func (c *Conn) vUse(ev string, o interface{}) {
+	if VerifSink == nil {
+		return
+	}
+	if _, ok := o.(util.ReaderFunc); ok {
+		return
+	}
+	VerifSink(VerifEvent{Conn: c.v.id, G: verifGID(), Ev: ev, S: "fr", A: vObjID(o)})
+}
+
+func (c *Conn) vHdr(ev string, h header) {
+	if VerifSink == nil {
+		return
+	}
+	flags := vB(h.fin) | vB(h.rsv1)<<1 | vB(h.rsv2)<<2 | vB(h.rsv3)<<3 | vB(h.masked)<<4
+	VerifSink(VerifEvent{Conn: c.v.id, G: verifGID(), Ev: ev, A: int64(h.opcode), B: flags, D: h.payloadLength, E: int64(h.maskKey)})
+}
+
+func (m *mu) vName() string {
+	c := m.c
+	switch {
+	case m == c.readMu:
+		return "rd"
+	case m == c.writeFrameMu:
+		return "wf"
+	case c.msgWriter != nil && m == c.msgWriter.mu:
+		return "msg"
+	case c.msgWriter != nil && m == c.msgWriter.writeMu:
+		return "wmu"
+	}
+	return "nc"
+}
+
+func (m *mu) vEv(ev string, a int64) {
+	if VerifSink == nil {
+		return
+	}
+	l := m.vName()
+	var b int64
+	if l == "nc" {
+		b = vObjID(m)
+	}
+	VerifSink(VerifEvent{Conn: m.c.v.id, G: verifGID(), Ev: ev, L: l, A: a, B: b})
+}
